@@ -81,6 +81,26 @@ def attr_class(prog, cls, attr):
     return None
 
 
+def check_split_suffix(ctx, rule: str) -> None:
+    """The part suffix pads the part number and never truncates it; the counter advances once per part, after use."""
+    np_ = ctx.anchor_func("flow.record.adapter.split.SplitWriter._next_path")
+    # the suffix: value derived from self.file_count that is interpolated into the path
+    suf = None
+    for st in walk_no_nested(np_):
+        if isinstance(st, ast.Assign) and isinstance(st.targets[0], ast.Name) and "self.file_count" in norm(st.value):
+            suf = st
+    if suf is None:
+        raise AnalysisError(f"{rule}: suffix computation not found in _next_path")
+    trunc = [n for n in ast.walk(suf.value) if isinstance(n, ast.Subscript) or (isinstance(n, ast.BinOp) and isinstance(n.op, ast.Mod) and not isinstance(n.left, ast.Constant))]
+    pads = [n for n in ast.walk(suf.value) if isinstance(n, ast.Call) and isinstance(n.func, ast.Attribute) and n.func.attr in ("rjust", "zfill")] or \
+        [n for n in ast.walk(suf.value) if isinstance(n, ast.FormattedValue) and n.format_spec is not None]
+    ctx.check(not trunc and bool(pads), rule, "SplitWriter._next_path:suffix-injective",
+              f"the part suffix `{norm(suf.value)}` truncates the part number (slice/modulo): once the number outgrows the suffix length an earlier part's name is reused and that "
+              "part is overwritten", suf, "suffix pads the part number and never truncates it", key=f"{rule}:SplitWriter._next_path:suffix-truncates")
+    bump = [st for st in walk_no_nested(np_) if isinstance(st, ast.AugAssign) and norm(st.target) == "self.file_count"]
+    ctx.check(len(bump) == 1 and ordkey(suf) < ordkey(bump[0]), rule, "SplitWriter._next_path:counter", "file_count is not advanced once per part after use", np_, "file_count += 1 after use")
+
+
 def run(ctx):
     prog = ctx.prog
     aw = ctx.anchor_cls("flow.record.adapter.AbstractWriter")
@@ -235,22 +255,7 @@ def run(ctx):
     inc = [st for st in walk_no_nested(sw) if isinstance(st, ast.AugAssign) and norm(st.target) == "self.written"]
     ctx.check(len(inc) == 1 and isinstance(inc[0].op, ast.Add) and norm(inc[0].value) == "1" and scfg.dominates(scfg.node_of(wcall).id, scfg.node_of(inc[0]).id), "R17.4",
               "SplitWriter.write:counter", "the part counter is not incremented by one per written record", sw, "self.written += 1 after the write")
-    np_ = ctx.anchor_func("flow.record.adapter.split.SplitWriter._next_path")
-    # the suffix: value derived from self.file_count that is interpolated into the path
-    suf = None
-    for st in walk_no_nested(np_):
-        if isinstance(st, ast.Assign) and isinstance(st.targets[0], ast.Name) and "self.file_count" in norm(st.value):
-            suf = st
-    if suf is None:
-        raise AnalysisError("R17.4: suffix computation not found in _next_path")
-    trunc = [n for n in ast.walk(suf.value) if isinstance(n, ast.Subscript) or (isinstance(n, ast.BinOp) and isinstance(n.op, ast.Mod) and not isinstance(n.left, ast.Constant))]
-    pads = [n for n in ast.walk(suf.value) if isinstance(n, ast.Call) and isinstance(n.func, ast.Attribute) and n.func.attr in ("rjust", "zfill")] or \
-        [n for n in ast.walk(suf.value) if isinstance(n, ast.FormattedValue) and n.format_spec is not None]
-    ctx.check(not trunc and bool(pads), "R17.4", "SplitWriter._next_path:suffix-injective",
-              f"the part suffix `{norm(suf.value)}` truncates the part number (slice/modulo): once the number outgrows the suffix length an earlier part's name is reused and that "
-              "part is overwritten", suf, "suffix pads the part number and never truncates it", key="R17.4:SplitWriter._next_path:suffix-truncates")
-    bump = [st for st in walk_no_nested(np_) if isinstance(st, ast.AugAssign) and norm(st.target) == "self.file_count"]
-    ctx.check(len(bump) == 1 and ordkey(suf) < ordkey(bump[0]), "R17.4", "SplitWriter._next_path:counter", "file_count is not advanced once per part after use", np_, "file_count += 1 after use")
+    check_split_suffix(ctx, "R17.4")
     # stdout detection decides whether the output is split at all: a target given as scheme://NAME puts NAME in the URL's netloc and a bare
     # NAME in its path, so a test that does not consult both cannot tell a file target from stdout
     si = ctx.anchor_func("flow.record.adapter.split.SplitWriter.__init__")
